@@ -38,6 +38,7 @@ SCHEMAS = {
 GHOST = {
     'tgt_last_failed': 'Bool',     # the last per-target verification (the cryptographic check) reported a failure
     'tgt_any_failed': 'Bool',      # some target of the security block failed (or had not exactly one result)
+    'tgt_seen': 'Int',             # number of targets of the security block examined so far
     'sec_last_failed': 'Bool',     # the last context call returned a reason code or raised
     'sec_unknown': 'Bool',         # the security block looked at names a context this node has no handler for
     'sec_failed': 'Bool',          # some security block of the bundle did not verify (unknown context, code, exception)
@@ -92,7 +93,7 @@ def _step(kind, cls, meth):
                   'pkt:CanonicalBlock.btsd', 'pkt:CanonicalBlock.crc_value', 'pkt:CanonicalBlock.payload',
                   'pkt:CanonicalBlock._pcls', 'ghost.crc_ok', 'ghost.sec_last_failed', 'ghost.sec_failed', 'ghost.sec_unknown',
                   # (what the COSE context's own contract lists: the write-set analysis of the loop finds it by name)
-                  'ghost.tgt_last_failed', 'ghost.tgt_any_failed', 'SecOp.ctr', 'SecOp.sec_blk', 'SecOp.tgt_blk',
+                  'ghost.tgt_last_failed', 'ghost.tgt_any_failed', 'ghost.tgt_seen', 'SecOp.ctr', 'SecOp.sec_blk', 'SecOp.tgt_blk',
                   'pkt:BlockIntegrityBlock.targets', 'pkt:BlockIntegrityBlock.results',
                   'pkt:BlockConfidentialityBlock.targets', 'pkt:BlockConfidentialityBlock.results'],
         locals={'failure': 'List[Int]', 'result': 'Opt[Int]'},
@@ -142,7 +143,7 @@ def _ctx_block(kind, target_fn):
         self='Ref[CoseCtx]', params={'ctr': CTR, kind: 'Pkt[CanonicalBlock, %s]' % (
             'BlockIntegrityBlock' if kind == 'bib' else 'BlockConfidentialityBlock')},
         returns='Opt[Int]', props=['C12'],
-        requires=[('starts_clean', 'not ghost.tgt_any_failed', []),
+        requires=[('starts_clean', 'not ghost.tgt_any_failed and ghost.tgt_seen == 0', []),
                   ('configured', 'self._config is not None', [])],
         # a target block that is not in the bundle (KeyError), fewer result lists than targets (IndexError) or anything
         # raised while reading the block's parameters escapes: the calling step counts that as a failure too
@@ -150,17 +151,19 @@ def _ctx_block(kind, target_fn):
         modifies=['SecOp.ctr', 'SecOp.sec_blk', 'SecOp.tgt_blk', 'pkt:BlockIntegrityBlock.targets',
                   'pkt:BlockIntegrityBlock.results', 'pkt:BlockConfidentialityBlock.targets',
                   'pkt:BlockConfidentialityBlock.results', 'pkt:Bundle.blocks', 'Ctr._block_num', 'pkt:CanonicalBlock.btsd',
-                  'ghost.crc_ok', 'ghost.tgt_last_failed', 'ghost.tgt_any_failed'],
+                  'ghost.crc_ok', 'ghost.tgt_last_failed', 'ghost.tgt_any_failed', 'ghost.tgt_seen'],
         locals={'failure': 'Opt[Int]', 'accept_ix': 'List[Int]', 'one_failure': 'Opt[Int]'},
         loops={
             0: dict(
                 invariant=[
                     ('verdict_so_far', '(failure is None) == (not ghost.tgt_any_failed) and '
                                        'implies(failure is not None, unwrap(failure) >= 12 and unwrap(failure) <= 16)'),
+                    ('targets_examined_in_turn', 'ghost.tgt_seen == _i'),
                 ],
                 ghost_begin=['ghost.tgt_last_failed = False\n'],
                 ghost_end=['ghost.tgt_any_failed = ghost.tgt_any_failed or ghost.tgt_last_failed or '
-                           'not (length(result_list) == 1)\n'],
+                           'not (length(result_list) == 1)\n'
+                           'ghost.tgt_seen = ghost.tgt_seen + 1\n'],
             ),
             1: dict(invariant=[('verdict_kept', '(failure is None) == (not ghost.tgt_any_failed) and '
                                                 'implies(failure is not None, unwrap(failure) >= 12 and unwrap(failure) <= 16)')]),
@@ -168,6 +171,7 @@ def _ctx_block(kind, target_fn):
         ensures=[
             # the block verifies only if every one of its targets verified (and had exactly one result)
             ('fails_iff_some_target_fails', 'implies(result is None, not ghost.tgt_any_failed)', ['C12']),
+            ('every_target_examined', 'implies(result is None, ghost.tgt_seen == length(old(%s.targets)))' % kind, ['C12']),
             ('reports_a_reason_code', 'implies(result is not None, unwrap(result) >= 12 and unwrap(result) <= 16)', ['C12']),
         ],
     )
